@@ -439,6 +439,13 @@ class NFANode(object):
         else:
             self.transitions[symbol].add(dest_node)
 
+    def add_empty_transition(self, dest_node):
+        """
+        Add a *directed* empty transition from this node to the specified
+        destination (as required by Thompson's constructions).
+        """
+        self.transitions[None].add(dest_node)
+
     def equivalent_nodes(self):
         """
         Iterate over the set of :py:class:`NFANode` nodes connected to this one
@@ -502,7 +509,7 @@ class NFA(object):
             nfa_a = cls.from_ast(ast.a)
             nfa_b = cls.from_ast(ast.b)
 
-            nfa_a.final.add_transition(nfa_b.start)
+            nfa_a.final.add_empty_transition(nfa_b.start)
 
             return cls(nfa_a.start, nfa_b.final)
         elif isinstance(ast, Symbol):
@@ -515,11 +522,11 @@ class NFA(object):
             nfa_a = cls.from_ast(ast.a)
             nfa_b = cls.from_ast(ast.b)
 
-            nfa.start.add_transition(nfa_a.start)
-            nfa.start.add_transition(nfa_b.start)
+            nfa.start.add_empty_transition(nfa_a.start)
+            nfa.start.add_empty_transition(nfa_b.start)
 
-            nfa_a.final.add_transition(nfa.final)
-            nfa_b.final.add_transition(nfa.final)
+            nfa_a.final.add_empty_transition(nfa.final)
+            nfa_b.final.add_empty_transition(nfa.final)
 
             return nfa
         elif isinstance(ast, Star):
@@ -527,11 +534,11 @@ class NFA(object):
 
             sub_nfa = cls.from_ast(ast.expr)
 
-            nfa.start.add_transition(nfa.final)
-            nfa.start.add_transition(sub_nfa.start)
+            nfa.start.add_empty_transition(nfa.final)
+            nfa.start.add_empty_transition(sub_nfa.start)
 
-            sub_nfa.final.add_transition(sub_nfa.start)
-            sub_nfa.final.add_transition(nfa.final)
+            sub_nfa.final.add_empty_transition(sub_nfa.start)
+            sub_nfa.final.add_empty_transition(nfa.final)
 
             return nfa
 
